@@ -12,15 +12,20 @@ import (
 // read-only inspection of the commander's in-memory position in the log, for trace validation.
 
 // VerifLastLog returns commander.lastLog (the log chained last), or nil.
+// The mutex is only tried: the scheduler calls this while every request is parked, and a request parked INSIDE the
+// commit section (a change of the code that yields there) must not block the scheduler — the read is then ordered
+// by the channel hand-over of the parking.
 func (commander *Commander) VerifLastLog() *ledger.ChainedLog {
-	commander.mu.Lock()
-	defer commander.mu.Unlock()
+	if commander.mu.TryLock() {
+		defer commander.mu.Unlock()
+	}
 	return commander.lastLog
 }
 
 // VerifLastTXID returns a copy of commander.lastTXID.
 func (commander *Commander) VerifLastTXID() *big.Int {
-	commander.mu.Lock()
-	defer commander.mu.Unlock()
+	if commander.mu.TryLock() {
+		defer commander.mu.Unlock()
+	}
 	return new(big.Int).Set(commander.lastTXID)
 }
